@@ -121,12 +121,15 @@ def c03(out, tv):
     for k, val in fv.items():
         vs[k] = val
     n = 0
+    # the final inputs are what the configuration holds now: read them through a
+    # fresh InputStore (a store object that served the solve may carry state of its own)
+    fresh_store = I.InputStore(out.cp, dict(getattr(out.store, 'input_specs', {}) or {}))
     for key, val in fv.items():
         fld = drive.find_field(out, key)
         if fld is None:
             v.append(('stored-line-without-field', f'{key} stored but no such line in solver.forms'))
             continue
-        fi = FM.FormAccessor(out.store, fld.form())
+        fi = FM.FormAccessor(fresh_store, fld.form())
         fvv = FM.FormAccessor(vs, fld.form())
         n += 1
         try:
@@ -152,7 +155,7 @@ def c03(out, tv):
         vs2[key] = view[key]
     for key, val in view.items():
         fld = drive.find_field(out, key)
-        fi = FM.FormAccessor(out.store, fld.form())
+        fi = FM.FormAccessor(fresh_store, fld.form())
         try:
             again = fld.value(fi, FM.FormAccessor(vs2, fld.form()))
         except BaseException as e:  # noqa
